@@ -26,6 +26,9 @@
  *   final                         bytes_used = get_size, sqfs_super_write                          -> rc=<rc> super=<hex96 as written>
  *   pad <devblk>                  padd_sqfs (static in finish.c, #included)                         -> rc=<rc>
  *   end                           -> ops <W off hex | T len> ; ...     and everything is released
+ *   fault <k> / limit <n>         (before init) the output call at position k (0-based, counting the calls carried out)
+ *                                 fails with EIO / every call that would make the file longer than it is and longer
+ *                                 than n bytes fails with ENOSPC                                    -> ok
  */
 #include "config.h"
 #include "sqfs/super.h"
@@ -35,6 +38,7 @@
 #include "sqfs/error.h"
 #include "hexio.h"
 
+#include <errno.h>
 #include <fcntl.h>
 #include <unistd.h>
 #include <sys/stat.h>
@@ -153,16 +157,44 @@ static void log_w(off_t off, const void *buf, size_t n)
 	oplog_add(" ; ", 3);
 }
 
+/* injected failure of the script being run: -1 = none */
+static long fault_at = -1;
+static long long limit_at = -1;
+static long out_calls;                       /* output calls carried out so far */
+
+static int inject(int fd, int is_w, long long off, long long n)
+{
+	if (!is_out(fd))
+		return 0;
+	if (fault_at >= 0 && out_calls == fault_at) {
+		errno = EIO;
+		return 1;
+	}
+	if (limit_at >= 0) {
+		long long end = is_w ? off + n : off;
+		struct stat sb;
+		if ((!is_w || n > 0) && end > limit_at && fstat(fd, &sb) == 0 && end > (long long)sb.st_size) {
+			errno = ENOSPC;
+			return 1;
+		}
+	}
+	return 0;
+}
+
 ssize_t __wrap_pwrite(int fd, const void *buf, size_t n, off_t off)
 {
-	ssize_t r = __real_pwrite(fd, buf, n, off);
-	if (r >= 0 && is_out(fd)) log_w(off, buf, r);
+	ssize_t r;
+	if (inject(fd, 1, off, n)) return -1;
+	r = __real_pwrite(fd, buf, n, off);
+	if (r >= 0 && is_out(fd)) { log_w(off, buf, r); out_calls++; }
 	return r;
 }
 ssize_t __wrap_pwrite64(int fd, const void *buf, size_t n, off_t off)
 {
-	ssize_t r = __real_pwrite64(fd, buf, n, off);
-	if (r >= 0 && is_out(fd)) log_w(off, buf, r);
+	ssize_t r;
+	if (inject(fd, 1, off, n)) return -1;
+	r = __real_pwrite64(fd, buf, n, off);
+	if (r >= 0 && is_out(fd)) { log_w(off, buf, r); out_calls++; }
 	return r;
 }
 static void log_t(off_t len)
@@ -173,14 +205,18 @@ static void log_t(off_t len)
 }
 int __wrap_ftruncate(int fd, off_t len)
 {
-	int r = __real_ftruncate(fd, len);
-	if (r == 0 && is_out(fd)) log_t(len);
+	int r;
+	if (inject(fd, 0, len, 0)) return -1;
+	r = __real_ftruncate(fd, len);
+	if (r == 0 && is_out(fd)) { log_t(len); out_calls++; }
 	return r;
 }
 int __wrap_ftruncate64(int fd, off_t len)
 {
-	int r = __real_ftruncate64(fd, len);
-	if (r == 0 && is_out(fd)) log_t(len);
+	int r;
+	if (inject(fd, 0, len, 0)) return -1;
+	r = __real_ftruncate64(fd, len);
+	if (r == 0 && is_out(fd)) { log_t(len); out_calls++; }
 	return r;
 }
 
@@ -247,6 +283,12 @@ static int script_main(const char *path)
 				if (!bw) abort();
 			}
 			printf("rc=%d\n", ret);
+		} else if (!strcmp(op, "fault") && a1 && !file) {
+			fault_at = atol(a1);
+			puts("ok");
+		} else if (!strcmp(op, "limit") && a1 && !file) {
+			limit_at = atoll(a1);
+			puts("ok");
 		} else if (!file) {
 			puts("bad-op");
 		} else if (!strcmp(op, "opts") && a1) {
@@ -360,6 +402,7 @@ static int script_main(const char *path)
 			if (bw) { sqfs_drop(bw); bw = NULL; }
 			sqfs_drop(file); file = NULL;
 			close(out_fd_a); out_fd_a = -1;
+			fault_at = -1; limit_at = -1; out_calls = 0;
 			memset(&super, 0, sizeof(super));
 		} else {
 			puts("bad-op");
